@@ -2,12 +2,12 @@
 SPECIFICATION Spec
 CONSTANTS
   Starts = {0, 65533, 1048573, 16777213}
-  UnitLens = {1, 5}
+  UnitLens = {5}
   Grans = {1, 2}
   LineLens = {2, 5}
   Relocs = {0, 65536}
   Fmts = {"MOTO", "INTEL", "INTEL16", "INTEL32", "MOS", "TEK", "ATMEL", "C"}
   Devs = {}
   Full = FALSE
-INVARIANTS InvLinesValid InvVerdict InvEmit InvLineLen InvBank InvWholeUnits
+INVARIANTS InvLinesValid InvVerdict InvDecodeEquiv InvEmit InvLineLen InvBank InvWholeUnits
 CHECK_DEADLOCK FALSE
